@@ -233,7 +233,7 @@ theorem step_pend {cfg : Cfg} {o : Opts} {st : ISt} (hdl : o.cache = .delay) (h 
     simp only [step, ifFlush]
     split
     · exact h
-    · intro k r hr; simp [Store.get] at hr
+    · split <;> (intro k r hr; simp [Store.get] at hr)
   | clear => exact absurd rfl hnc
   | evict k => simp only [step]; split; exact h.evict k; exact h
 
